@@ -78,6 +78,7 @@ var (
 	fTier       = flag.String("tier", "quick", "quick|thorough")
 	fEvidence   = flag.String("evidence", "", "evidence file to write")
 	fKnown      = flag.String("known", "", "known_findings.json")
+	fPass       = flag.String("pass", "", "name of a further pass of the same check: its coverage is added to the evidence file the first pass wrote")
 	fReplays    = flag.String("replays", "", "directory for replay artefacts")
 	fBudget     = flag.Duration("budget", 0, "wall-clock budget")
 	fReplay     = flag.String("replay", "", "replay one recorded case")
@@ -626,6 +627,9 @@ func (r *Run) Finish(c Coverage) {
 			"wall_s":      wall,
 			"violations":  unknown,
 		}
+		if *fPass != "" {
+			ev = addPass(r.Evidence, *fPass, ev)
+		}
 		b, _ := json.MarshalIndent(ev, "", " ")
 		os.MkdirAll(filepath.Dir(r.Evidence), 0o755)
 		if err := os.WriteFile(r.Evidence, append(b, '\n'), 0o644); err != nil {
@@ -641,6 +645,78 @@ func (r *Run) Finish(c Coverage) {
 		os.Exit(1)
 	}
 	os.Exit(0)
+}
+
+// addPass folds the evidence of a further pass of one check into the evidence its first pass
+// wrote: the pass is kept whole under coverage.passes, the totals (evaluations, states,
+// transitions, validated traces, violations) are summed, exhaustive is the conjunction and the
+// caps and violation signatures are concatenated.
+func addPass(path, name string, ev map[string]any) map[string]any {
+	b, err := os.ReadFile(path)
+	var first map[string]any
+	if err != nil || json.Unmarshal(b, &first) != nil || first["property_id"] != ev["property_id"] || first["tier"] != ev["tier"] {
+		return ev
+	}
+	fc, _ := first["coverage"].(map[string]any)
+	nc, _ := ev["coverage"].(map[string]any)
+	if fc == nil || nc == nil {
+		return ev
+	}
+	num := func(x any) float64 {
+		switch v := x.(type) {
+		case float64:
+			return v
+		case int64:
+			return float64(v)
+		case int:
+			return float64(v)
+		}
+		return 0
+	}
+	passes, _ := fc["passes"].([]any)
+	if passes == nil {
+		main := map[string]any{"pass": "first"}
+		for k, v := range fc {
+			main[k] = v
+		}
+		passes = []any{main}
+	}
+	this := map[string]any{"pass": name, "wall_s": ev["wall_s"], "assumptions": ev["assumptions"]}
+	for k, v := range nc {
+		this[k] = v
+	}
+	passes = append(passes, this)
+	fc["passes"] = passes
+	for _, k := range []string{"evaluations", "states", "transitions", "traces_validated_against_impl"} {
+		fc[k] = int64(num(fc[k]) + num(nc[k]))
+	}
+	fe, _ := fc["exhaustive"].(bool)
+	ne, _ := nc["exhaustive"].(bool)
+	fc["exhaustive"] = fe && ne
+	caps, _ := fc["caps_hit"].([]any)
+	switch c := nc["caps_hit"].(type) {
+	case []string:
+		for _, x := range c {
+			caps = append(caps, name+": "+x)
+		}
+	}
+	if caps == nil {
+		caps = []any{}
+	}
+	fc["caps_hit"] = caps
+	sigs, _ := fc["violation_signatures"].([]any)
+	if ns, ok := nc["violation_signatures"].([]map[string]any); ok {
+		for _, x := range ns {
+			sigs = append(sigs, x)
+		}
+	}
+	if sigs == nil {
+		sigs = []any{}
+	}
+	fc["violation_signatures"] = sigs
+	first["violations"] = int64(num(first["violations"]) + num(ev["violations"]))
+	first["wall_s"] = num(first["wall_s"]) + num(ev["wall_s"])
+	return first
 }
 
 // Parallel runs f(i) for i in [0,n) on r.Workers goroutines (in-process; for pure code).
